@@ -36,6 +36,9 @@ type Engine struct {
 	typeByName    map[string]types.Type
 	loadSeconds   float64
 	boxKeys       map[*Term]string
+	initHyps      []*Term
+	initNotes     []string
+	fvCands       map[string][]*ssa.Function
 }
 
 func (e *Engine) specError(fn string, c *Clause, err error) {
@@ -127,7 +130,7 @@ func loadEngine(repo string, specDir string) (*Engine, error) {
 	e := &Engine{repo: repo, prog: prog, pkgs: pkgs, db: newSpecDB(), fnByName: map[string]*ssa.Function{},
 		modsets: map[*ssa.Function]*ModSet{}, freshCache: map[*ssa.Function]map[ssa.Value]int{}, implCache: map[string][]*ssa.Function{},
 		tags: map[string]int64{}, tagTypes: map[int64]types.Type{}, boxTypes: map[string]types.Type{}, closureByTerm: map[*Term]*Closure{},
-		inlineAll: map[string]bool{}, boxKeys: map[*Term]string{}, pkgByName: map[string]*types.Package{}, globalsSeen: map[string]bool{}, typeByName: map[string]types.Type{}}
+		inlineAll: map[string]bool{}, boxKeys: map[*Term]string{}, fvCands: map[string][]*ssa.Function{}, pkgByName: map[string]*types.Package{}, globalsSeen: map[string]bool{}, typeByName: map[string]types.Type{}}
 	for fn := range ssautil.AllFunctions(prog) {
 		e.fnByName[shortName(fn)] = fn
 	}
@@ -249,6 +252,10 @@ func (e *Engine) verifyFunction(fn *ssa.Function, safety bool) (fr *Frame, err e
 	defer func() { exactRealDiv = false }()
 	st := e.entryState()
 	f.addHyp(tTrue(), tAnd(tGe(st.alloc, tInt(0)), tGe(st.clock, tInt(0))))
+	f.hyps = append(f.hyps, e.initHyps...)
+	for _, n := range e.initNotes {
+		f.notes[n] = true
+	}
 	var args []Value
 	for _, p := range fn.Params {
 		v := sym("p$"+p.Name(), sortOf(p.Type()))
